@@ -144,6 +144,82 @@ def obligations(tier):
     for nm, g, d in consts:
         obs.append(unitary_ob(f'const.{nm}', [], lambda _g=g: _g(), lambda _d=d: _d(), desc='named constant vs documented matrix (concrete: no symbolic parameter)'))
 
+    # ---- BooleanHamiltonianGate: diagonal phases exp(-i t/2 sum_k f_k(x)) up to a global phase ---------------------
+    BH_MENU = [
+        (['x0'], ['x0']),
+        (['x0'], ['~x0']),
+        (['x0', 'x1'], ['x0 & x1']),
+        (['x0', 'x1'], ['x0 ^ x1']),
+        (['x0', 'x1'], ['x0 | x1', 'x0']),
+        (['x0', 'x1'], ['x0', 'x0']),
+        (['x0', 'x1', 'x2'], ['x0 & x1', 'x0 & x2']),
+        (['x0', 'x1', 'x2'], ['x0 ^ x1', 'x1 ^ x2', 'x0 ^ x2']),
+        (['x0', 'x1', 'x2'], ['(x0 | ~x1) & x2', 'x1']),
+        (['a', 'b', 'c'], ['a & b & c', 'a ^ c', '~b']),
+    ]
+
+    def bh_truth(expr, env):
+        """independent evaluation of the Boolean expression (Python's own parser, bit operators on 0/1)"""
+        import ast
+
+        def ev(n):
+            if isinstance(n, ast.Expression):
+                return ev(n.body)
+            if isinstance(n, ast.Name):
+                return env[n.id]
+            if isinstance(n, ast.UnaryOp) and isinstance(n.op, ast.Invert):
+                return 1 - ev(n.operand)
+            if isinstance(n, ast.BinOp):
+                a, b = ev(n.left), ev(n.right)
+                return {ast.BitAnd: a & b, ast.BitOr: a | b, ast.BitXor: a ^ b}[type(n.op)]
+            raise ValueError(n)
+
+        return ev(ast.parse(expr, mode='eval'))
+
+    def bh_body(cx, wrong=False):
+        import itertools as it_
+
+        tt = cx.real('t', -A_, A_)
+        names, exprs = BH_MENU[cx.choose('expressions', len(BH_MENU))]
+        g = cirq.BooleanHamiltonianGate(names, exprs, tt)
+        u = np.asarray(cirq.unitary(g), dtype=object)
+        n = len(names)
+        F = []
+        for bits in it_.product((0, 1), repeat=n):
+            env = dict(zip(names, bits))
+            F.append(sum(bh_truth(e, env) for e in exprs))
+        # up to a global phase: compare u[x, x] * conj(u[0, 0]) with exp(-i t/2 (F(x) - F(0))), off-diagonal 0, |u00| = 1
+        got = np.empty((2**n, 2**n), dtype=object)
+        exp = np.zeros((2**n, 2**n), dtype=object)
+        c00 = u[0, 0].conjugate() if hasattr(u[0, 0], 'conjugate') else np.conj(u[0, 0])
+        for i in range(2**n):
+            for j in range(2**n):
+                got[i, j] = u[i, j] * c00
+            exp[i, i] = D.phr(-(F[i] - F[0]) * tt / 2 * (-1 if wrong else 1)) if (F[i] - F[0]) else 1
+        cx.close(got, exp, label='BooleanHamiltonianGate: diagonal phases exp(-i t/2 sum_k f_k(x)) relative to |0..0>')
+
+    obs.append(Obligation('BooleanHamiltonianGate', bh_body, twin=lambda cx: bh_body(cx, wrong=True), desc='cirq.unitary(BooleanHamiltonianGate(names, expressions, t)) for 10 expression lists (shared Z-terms, repeated clauses, negation, 1-3 variables) and SYMBOLIC angle t: diagonal with relative phases exp(-i t/2 (F(x) - F(0))), F = number of true expressions (independent evaluator)'))
+
+    # ---- MatrixGate: the defining matrix, and it stays the defining matrix ------------------------------------------
+    def mg_body(cx, wrong=False):
+        from oracles import embed as EM_
+
+        k = 1 + cx.choose('qubits', 2)
+        M = EM_.sym_tensor(cx, (2**k, 2**k), 'm')
+        if cx.mode == 'concrete':
+            M = np.asarray(M, dtype=complex)
+        g = cirq.MatrixGate(M.copy(), unitary_check=False)  # the gate gets its own array: M stays pristine
+        u1 = cirq.unitary(g)
+        cx.close(u1, M * (2 if wrong else 1), label='MatrixGate: cirq.unitary == defining matrix')
+        # the returned array belongs to the caller: editing it must not change the gate (same for the operation)
+        u1[0, 0] = u1[0, 0] + 1
+        u2 = cirq.unitary(g.on(*cirq.LineQubit.range(k)))
+        cx.close(u2, M, label='MatrixGate: matrix unchanged after the caller edited a returned array')
+        u2[0, 1] = u2[0, 1] + 1
+        cx.close(cirq.unitary(g), M, label='MatrixGate: matrix unchanged after the caller edited the array returned for the operation')
+
+    obs.append(Obligation('MatrixGate', mg_body, twin=lambda cx: mg_body(cx, wrong=True), desc='cirq.unitary(MatrixGate(M)) for a fully SYMBOLIC 2x2 / 4x4 matrix M (unitary_check=False: the LAPACK-free constructor path): equals M, and still equals M after the caller modified previously returned arrays'))
+
     # ---- channels ---------------------------------------------------------------------------
     P01 = 1.0
 
@@ -234,6 +310,6 @@ def main(tier, seed=0, replay=None, only=None, procs=None):
         'qudit_dimension': '<= 3 (reset, identity)',
         'register_size_concrete_gates': '<= 3 qubits (QFT, PhaseGradient)',
         'tolerance': 1e-7,
-        'outside': ['BooleanHamiltonianGate', 'UniformSuperpositionGate', 'StatePreparationChannel', 'MatrixGate with symbolic entries (unitarity validation via LAPACK)', 'complex64'],
+        'outside': ['UniformSuperpositionGate', 'StatePreparationChannel', 'MatrixGate constructed with unitary_check=True (unitarity validation via LAPACK)', 'BooleanHamiltonianGate beyond the 10 listed expression lists', 'complex64'],
     }
-    return run_check(PID, tier, 'checks.C03', CORE_SHIM_MODULES, LEVEL, BASE_ASSUMPTIONS, bounds, seed=seed, replay=replay, only=only, procs=procs)
+    return run_check(PID, tier, 'checks.C03', CORE_SHIM_MODULES + ['cirq.qis.states', 'cirq.ops.boolean_hamiltonian', 'cirq.protocols.decompose_protocol'], LEVEL, BASE_ASSUMPTIONS, bounds, seed=seed, replay=replay, only=only, procs=procs)
